@@ -51,3 +51,35 @@ func VerifC19Memkv() {
 }
 
 var _ storage.KvStorage
+
+// VerifC19MemkvTTL: a key written with a TTL expires (timer goroutine) while a reader and an
+// iterator are inside the engine.
+func VerifC19MemkvTTL() {
+	s := memkv.NewKvStorage()
+	b := s.BeginBatchWrite()
+	b.Put([]byte("a"), []byte("1"), 0)
+	b.Put([]byte("t"), []byte("2"), 1) // expires after one second
+	b.Commit(ctx)
+	var wg sync.WaitGroup
+	wg.Add(2)
+	zzverif.ExploreSchedules(zzverif.Param("preempt", 1))
+	zzverif.FireTimers()
+	zzverif.Go("reader", func() {
+		s.Get(ctx, []byte("t"))
+		wg.Done()
+	})
+	zzverif.Go("iterator", func() {
+		it, err := s.Iter(ctx, []byte("a"), []byte("z"), 0, 0)
+		if err == nil {
+			for it.Next(ctx) == nil {
+				_ = it.Key()
+			}
+			it.Close()
+		}
+		wg.Done()
+	})
+	wg.Wait()
+	zzverif.StopExploring()
+	zzverif.WaitIdle()
+	zzverif.Cover("done")
+}
